@@ -120,6 +120,18 @@ func findUnescaped(s string, find byte) (string, int) {
 	return b.String(), -1
 }
 
+// IsPathBelow tells whether the textual path lies strictly beneath the textual path ancestor, at a
+// path element boundary: /a/b and /a[k=1]/b are below /a, while /ab is not. Everything is below the root.
+func IsPathBelow(path string, ancestor string) bool {
+	if ancestor == "" || ancestor == "/" {
+		return path != ancestor && path != "" && path != "/"
+	}
+	if len(path) <= len(ancestor) || !strings.HasPrefix(path, ancestor) {
+		return false
+	}
+	return path[len(ancestor)] == '/' || path[len(ancestor)] == '['
+}
+
 // SplitPaths splits multiple gnmi paths
 func SplitPaths(paths []string) [][]string {
 	out := make([][]string, len(paths))
